@@ -22,7 +22,7 @@ type Palette struct {
 
 var (
 	sObjA    = Obj(P("a", Int("1")))
-	sObjRich = Obj(P("id", Int("1").Min("0").N("the id")), P("name", Str("Tom").Optional()))
+	sObjRich = Obj(P("id", Int("1").Min("0").N("the\u00a0id")), P("name", Str("Tom").Optional()))
 	sArr     = Arr(Int("1"), Str("s"))
 	sNested  = Obj(P("k", Obj(P("m", Arr(Bool("true"), Null())))), P("f", Float("1.5")))
 	sRefT1   = Obj(P("r", Ref("@T1")))
@@ -35,7 +35,7 @@ var (
 func DefaultPalette() *Palette {
 	return &Palette{
 		Infos:   []*Info{{Title: "My API"}, {Title: "T", Version: "1.0", Desc: "Hello\n  world"}, {Desc: "only text"}},
-		Servers: []*Server{{Name: "@prod", Ann: "Production", BaseURL: "https://x.y/"}, {Name: "@test", BaseURL: "http://t"}},
+		Servers: []*Server{{Name: "@prod", Ann: "Production\u00a0env", BaseURL: "https://x.y/"}, {Name: "@test", BaseURL: "http://t"}},
 		Tags:    []*Tag{{Name: "@cats", Ann: "Cats *", Desc: "About cats"}, {Name: "@dogs"}},
 		Types: []*Type{
 			{Name: "@T1", Ann: "A  type", Body: Body{Kind: "schema", S: sObjRich}},
